@@ -55,6 +55,15 @@ func lifeFamily(prop, name string, weight int, gen func(*RNG) *SrvPlan, online f
 }
 
 func init() {
+	register(srvFamily("C14", "c14-server", 1, GenC14, c14Online, c14Final,
+		func(w *SrvWorld, r *RunResult) { r.Nontrivial = c14Nontrivial(w) }))
+	register(&Family{Prop: "C13", Name: "c13", Weight: 1,
+		Gen: func(r *RNG) any { return GenC13(r) },
+		Run: func(plan any, tape *Tape, ss uint64) *RunResult {
+			return RunSrvQ(plan.(*SrvPlan), tape, ss, "C13", c13Online, c13AtQuiescence, nil, func(w *SrvWorld, r *RunResult) { r.Nontrivial = c13Nontrivial(w) })
+		},
+		Decode: func(b json.RawMessage) (any, error) { p := &SrvPlan{}; return p, json.Unmarshal(b, p) },
+	})
 	register(lifeFamily("C10", "c10", 4, GenC10, nil, c10Final,
 		func(w *SrvWorld, r *RunResult) { r.Nontrivial = c10Nontrivial(w) }))
 	register(lifeFamily("C10", "c10-idle", 1, GenC10Idle, nil, c10Final,
